@@ -115,7 +115,7 @@ func MsgClass(msg string) string {
 	words := strings.FieldsFunc(msg, func(r rune) bool { return r == ' ' })
 	_ = inWord
 	keep := map[string]bool{}
-	for _, w := range strings.Fields("cannot use as value in assignment argument to return statement variable declaration invalid operation operator not defined on mismatched types and untyped constant overflows truncated division by zero shift count of must be integer negative missing redeclared this block undefined declared used is a type expression evaluated but call non-function too many few arguments values assign convert range over indirect index slice type assertion interface implement method label already defined no new variables left side := expected got want have comparable compared only nil map key literal field unknown duplicate case switch select send receive channel direction struct array out bounds constant representable by value for func does implements satisfy infer instantiate parameter result unreachable fallthrough break continue goto jumps into over defer go requires function discards take address cannot unary binary untyped bool int float rune string complex number") {
+	for _, w := range strings.Fields("ambiguous selector unexported refer pointer addressable cannot use as value in assignment argument to return statement variable declaration invalid operation operator not defined on mismatched types and untyped constant overflows truncated division by zero shift count of must be integer negative missing redeclared this block undefined declared used is a type expression evaluated but call non-function too many few arguments values assign convert range over indirect index slice type assertion interface implement method label already defined no new variables left side := expected got want have comparable compared only nil map key literal field unknown duplicate case switch select send receive channel direction struct array out bounds constant representable by value for func does implements satisfy infer instantiate parameter result unreachable fallthrough break continue goto jumps into over defer go requires function discards take address cannot unary binary untyped bool int float rune string complex number") {
 		keep[w] = true
 	}
 	for _, w := range words {
